@@ -17,7 +17,7 @@ for slot in $(seq 0 $((jobs-1))); do
   [ -f "$tmp/q.$slot" ] || continue
   (
     while read -r sl s name; do
-      RAYON_NUM_THREADS=$((16 / jobs > 2 ? 16 / jobs : 2)) /verif/tools/par_try.sh "m$sl" "$s/patch.diff" "$tier" $ids > "$tmp/$name.res" 2>"$tmp/$name.err"
+      RAYON_NUM_THREADS=$((16 / jobs > 2 ? 16 / jobs : 2)) /verif/tools/par_try.sh "${SLOT_PREFIX:-m}$sl" "$s/patch.diff" "$tier" $ids > "$tmp/$name.res" 2>"$tmp/$name.err"
       row="$name\t$tier"
       for id in $ids; do
         rc=$(grep "^$id " "$tmp/$name.res" | head -1 | cut -d' ' -f2)
